@@ -267,11 +267,16 @@ pub unsafe extern "C" fn mcount_handler(ret: usize) {
     (*p).yield_point_n(batch as u64);
     // next batch: 1..=15 entries, from a per-thread deterministic generator, so that
     // pre-emption points are not aligned to a fixed stride
-    let next = LCG.with(|l| {
-        let x = l.get().wrapping_mul(6364136223846793005).wrapping_add(1442695040888963407);
-        l.set(x);
-        ((x >> 40) % 15) as u32 + 1
-    });
+    let next = if (*p).dense_active() {
+        // dense prologue of an aligned operation start: every counted entry is a decision point
+        1
+    } else {
+        LCG.with(|l| {
+            let x = l.get().wrapping_mul(6364136223846793005).wrapping_add(1442695040888963407);
+            l.set(x);
+            ((x >> 40) % 15) as u32 + 1
+        })
+    };
     BATCH.with(|b| b.set(next));
     COUNTDOWN.with(|c| c.set(next));
     BUSY.with(|b| b.set(false));
